@@ -213,7 +213,7 @@ def load_pins():
     return pins
 
 
-def render_tables(repo, std, known_units=()):
+def render_tables(repo, std, canary=False):
     """-> (chunks [(text, origin)], items_meta, clauses_meta, rules)"""
     from fractions import Fraction as F
     units, meta = collect(repo)
@@ -293,6 +293,8 @@ def render_tables(repo, std, known_units=()):
             for i, line in enumerate(body.split("\n")):
                 if i == 0 and line.strip() == "{":
                     chunks.append((line + "\n", ("code", u["file"], base_line + i, iid)))
+                    if canary:
+                        emit("assert(false); // canary", ("canary", iid))
                     # Verus treats `p * -2` (unary minus on a literal) as a non-linear product: spell the products out once
                     hints = " ".join(f"assert({params[1]} * (-{c}) == -({c} * {params[1]})) by(nonlinear_arith);" for c in (1, 2, 3, 4, 5, 6))
                     emit("        proof { " + hints + " }", ("ghost", iid, "neg-literal products"))
@@ -363,6 +365,8 @@ def render_tables(repo, std, known_units=()):
                 for i, line in enumerate(body.split("\n")):
                     if i == 0:
                         chunks.append((line + "\n", ("code", u["file"], line0 + i, iid)))
+                        if canary:
+                            emit("assert(false); // canary", ("canary", iid))
                         emit("        proof { assert((32int) as real / (1int) as real == 32real) by(nonlinear_arith); assert((27315int) as real / (100int) as real == 273.15real) by(nonlinear_arith); assert((5int) as real / (9int) as real == 5real / 9real); assert((9int) as real / (5int) as real == 9real / 5real); }", ("ghost", iid, "consts"))
                     elif i == len(body.split("\n")) - 1 and line.strip() == "}":
                         c0, c1 = ("32real", "5real / 9real") if which == "to" else ("273.15real", "9real / 5real")
@@ -395,6 +399,8 @@ def render_tables(repo, std, known_units=()):
         body_line = line0 + text[:text.index(body)].count("\n")
         for i, line in enumerate(body.split("\n")):
             chunks.append((line + "\n", ("code", u["file"], body_line + i, iid)))
+            if i == 0 and canary:
+                emit("assert(false); // canary", ("canary", iid))
     # prefix constants
     pf = SourceFile("src/prefix.rs", open(os.path.join(repo, "src/prefix.rs"), encoding="utf-8").read())
     impl = pf.find("impl Prefix")
